@@ -89,7 +89,11 @@ where
         let r = match self.0 {
             Inner::Dead => return Err(io::Error::new(io::ErrorKind::BrokenPipe, "body is dead")),
             Inner::Raw(ref mut w) => w.flush(),
-            Inner::Gzipped(ref mut w) => w.flush(),
+            // flate2's `flush` requests the sync flush before emptying its output buffer. If that
+            // buffer happens to be full (after a large incompressible write), the request is lost
+            // and some accepted bytes stay inside the compressor. The first `flush` leaves the
+            // buffer empty in any case, so a second one always takes effect.
+            Inner::Gzipped(ref mut w) => w.flush().and_then(|()| w.flush()),
         };
         if r.is_err() {
             self.0 = Inner::Dead;
